@@ -42,6 +42,16 @@ Create(c) ==
      ELSE /\ st' = [st EXCEPT ![c] = "refused"] /\ UNCHANGED <<gout, gid, ngate>>
           /\ ev' = [e |-> "create", c |-> c, t |-> now, res |-> "created", ns |-> 0] @@ ObsD(0, 0, lim)
   /\ UNCHANGED <<cfg, now, lim>>
+\* the wrapped service's `call` itself panics (injected, "cp"): Service::call unwinds, no future comes into being, and the
+\* call does not count as in flight; a caller that found the limiter not ready makes no call, so nothing panics
+CreateP(c) ==
+  /\ st[c] = "idle"
+  /\ IF InFlightOf(SvcOf(c)) < lim
+     THEN /\ st' = [st EXCEPT ![c] = "done"]
+          /\ ev' = [e |-> "create", c |-> c, t |-> now, res |-> "panic", ns |-> 0, cp |-> 1] @@ ObsD(0, 0, lim)
+     ELSE /\ st' = [st EXCEPT ![c] = "refused"]
+          /\ ev' = [e |-> "create", c |-> c, t |-> now, res |-> "created", ns |-> 0, cp |-> 1] @@ ObsD(0, 0, lim)
+  /\ UNCHANGED <<cfg, now, lim, gout, gid, ngate>>
 PollRefused(c) ==
   /\ st[c] = "refused" /\ st' = [st EXCEPT ![c] = "done"]
   /\ ev' = [e |-> "poll", c |-> c, t |-> now, res |-> "err", kind |-> "notready", ns |-> 0] @@ ObsD(0, 0, lim)
@@ -75,7 +85,7 @@ Advance(d) ==
   /\ UNCHANGED <<cfg, lim, st, gout, gid, ngate>>
 Next ==
   \/ \E s \in {1, 2} : Probe(s)
-  \/ \E c \in Callers : Create(c) \/ PollRefused(c) \/ Drop(c) \/ (\E l2 \in cfg.min..cfg.max : PollDone(c, l2))
+  \/ \E c \in Callers : Create(c) \/ CreateP(c) \/ PollRefused(c) \/ Drop(c) \/ (\E l2 \in cfg.min..cfg.max : PollDone(c, l2))
   \/ \E c \in Callers, o \in Outs : Complete(c, o)
   \/ (now < MaxTime /\ Advance(1))
 Spec == Init /\ [][Next]_vars
